@@ -93,7 +93,7 @@ func depthFor(c *acfg, tier string) (depth, split int) {
 // extDepthFor: bounds of the extended-alphabet search (rel.go).
 func extDepthFor(c *acfg, tier string) (depth, split int) {
 	big := strings.HasPrefix(c.Name, "aligned@32K+rel")
-	if tier == "thorough" {
+	if tier == "thorough" && !c.Pkg { // (the package-level surface keeps the quick bounds: a wrapper has no state to reach)
 		if big {
 			return 4, 2
 		}
